@@ -5,6 +5,7 @@ import (
 	"encoding/hex"
 	"fmt"
 	"hash"
+	"os"
 	"sort"
 	"strings"
 
@@ -46,6 +47,8 @@ func h8(s string) [8]byte {
 	copy(out[:], sum[:8])
 	return out
 }
+
+var dumpResults = os.Getenv("LSSIM_DUMP") != ""
 
 // Exec executes one scenario.
 type Exec struct {
@@ -117,6 +120,9 @@ func (x *Exec) count(r *Result) {
 	c := r.Canon()
 	if !r.Empty() && r.Err == nil {
 		x.Cov.NonTrivial[h8(r.Q.Kind+"\x00"+c)] = true
+	}
+	if x.LogText != nil && dumpResults {
+		x.LogText.WriteString("    = " + c + "\n")
 	}
 	x.logf("q ev=%d %s p=%d f=%s off=%d ord=%s/%d pre=%v lim=%d -> %x", x.EvIdx, r.Q.Kind, r.Q.Path, r.Q.File, r.Q.Off, r.Q.Order.P, r.Q.Order.Key, r.Q.Prefill, r.Q.Limit, h8(c))
 }
